@@ -302,3 +302,124 @@ def C15(tier, seed):
                  "MC: TDigestMerge.tla (weights sum, means sorted, inside [min,max], exact extremes, singleton end centroids) for every merge policy; "
                  "Trace: streams of 1..12k values (1e6 thorough) of 7 shapes, k in {10,29,30,100,200,500} (65535 thorough), merge trees of up to 16 digests: "
                  "after every compress the centroid count <= 2k+30, image size = 32+16c, weights sum to total_weight = values offered, means sorted inside [min,max], extremes exact")
+
+
+# --------------------------------------------------------------------------- cross-family properties
+FAMS = {
+  "hll":   dict(cmd="hll-record", module="Trace_Hll", consts=HLL_CONSTS, args={}),
+  "hllu":  dict(cmd="hllu-record", module="Trace_Hll", consts=HLL_CONSTS, args={}),
+  "hllv":  dict(cmd="hllv-record", module="Trace_Hll", consts=HLL_CONSTS, args={}),
+  "theta": dict(cmd="theta-record", module="Trace_Theta", consts=THETA_CONSTS, args={}),
+  "cpc":   dict(cmd="cpc-record", module="Trace_Cpc", consts=CPC_CONSTS, args={"what": "sketch"}),
+  "cpcu":  dict(cmd="cpc-record", module="Trace_Cpc", consts=CPC_CONSTS, args={"what": "union"}),
+  "fi":    dict(cmd="fi-record", module="Trace_FreqItems", consts=FI_CONSTS, args={}),
+  "cm":    dict(cmd="cm-record", module="Trace_CountMin", consts="CONSTANTS ", args={}),
+  "bloom": dict(cmd="bloom-record", module="Trace_Bloom", consts="CONSTANTS ", args={}),
+  "td":    dict(cmd="td-record", module="Trace_TDigest", consts="CONSTANTS ", args={}),
+}
+
+
+def multi(pid, tier, seed, fams, mcs, assumptions, rule, level="model_checking", extra=None):
+    """One property decided over several families: every family's recorder is run and its traces are
+    validated by the family's trace specification with this property's conjuncts switched on."""
+    t0 = time.time()
+    clean(pid)
+    vhbin = build_harness()
+    mc = [tlc_mc(m, c, workers=6) for (m, c) in mcs]
+    ev_total, st_total, runs_total, rej_all, samples = 0, 0, 0, [], []
+    viol, hits = [], []
+    per = {}
+    for fam in fams:
+        f = FAMS[fam]
+        shards = 8
+        args = {"out": work(pid, fam), "shards": shards, "seed": seed, "tier": tier}
+        args.update(f["args"])
+        rec = vh(vhbin, f["cmd"], args)
+        paths = [work(pid, "%s.%d.ndjson" % (fam, i)) for i in range(shards)]
+        cfg = trace_cfg(pid + "_" + fam, f["module"][6:], f["consts"], [pid])
+        ev, rej, st = validate_shards(f["module"], cfg, paths, jobs=shards)
+        v, h = classify(pid, rej, f["module"], cfg)
+        # keep replay names unique across families
+        v2 = []
+        for path in v:
+            np_ = path.replace(pid + "-", pid + "-" + fam + "-")
+            os.rename(path, np_)
+            os.rename(path + ".meta.json", np_ + ".meta.json")
+            v2.append(np_)
+        viol += v2
+        hits += h
+        ev_total += ev
+        st_total += st
+        runs_total += rec["runs"] - len(rej)
+        per[fam] = {"events": ev, "runs": rec["runs"], "rejections": len(rej)}
+        samples += sample_events(paths, n=1, maxlen=3)
+    if extra:
+        for (fam, module, consts, paths, nruns, gstats) in extra(vhbin, pid, tier, seed):
+            cfg = trace_cfg(pid + "_" + fam, module[6:], consts, [pid])
+            ev, rej, st = validate_shards(module, cfg, paths, jobs=8)
+            v, h = classify(pid, rej, module, cfg)
+            v2 = []
+            for path in v:
+                np_ = path.replace(pid + "-", pid + "-" + fam + "-")
+                os.rename(path, np_)
+                os.rename(path + ".meta.json", np_ + ".meta.json")
+                v2.append(np_)
+            viol += v2
+            hits += h
+            ev_total += ev
+            st_total += st + gstats.get("states", 0)
+            runs_total += nruns - len(rej)
+            per[fam] = {"events": ev, "runs": nruns, "rejections": len(rej), "generator": gstats}
+            samples += sample_events(paths, n=1, maxlen=3)
+    cov = {"states": sum(m["states"] for m in mc) + st_total,
+           "transitions": sum(m["transitions"] for m in mc) + ev_total,
+           "traces_validated_against_impl": runs_total, "trace_events_validated": ev_total,
+           "mc_instances": mc, "per_family": per, "samples": samples[:4], "exhaustive": False, "rule": rule}
+    finish(pid, tier, seed, level, cov, t0, viol, assumptions, hits)
+
+
+def C11(tier, seed):
+    multi("C11", tier, seed, ["hll", "hllu", "theta", "cpc", "fi", "cm", "bloom", "td"],
+          [("MC_Hll", "MC_Hll_A.cfg"), ("MC_FreqItems", "MC_FreqItems.cfg")],
+          ["round trips are steps (RT / FRT / CRT / PRT / BRT / DCopy events) of the recorded histories of every family: the copy must hold the "
+           "state the specification's RoundTrip action yields (identity up to what the format cannot carry), report bit-identical estimates and bounds, "
+           "re-serialize to the same bytes where the layout is canonical (HLL Hll4 exception order and frequent-items pair order follow the writer's "
+           "table layout and are compared as multisets), and later updates/merges on the copy are validated like any other step",
+           "frequent items is exercised with i64 items in recorded traces; u64 and String items only through the harness's direct equality check"],
+          "all family recorders (HLL sketch+union, theta compact v3/v4 with delta widths 1..63 and 0..1000 (4100 thorough) entries, CPC all flavors + "
+          "CpcWrapper, frequent items, Count-Min all counter types, Bloom, t-digest) with Check = {C11}")
+
+
+def C12(tier, seed):
+    multi("C12", tier, seed, ["hll", "hllv", "theta", "fi", "cm", "bloom"],
+          [("MC_Hll", "MC_Hll_A.cfg")],
+          ["the layouts are written in the specification (HllFormat.tla, ThetaFormat.tla, Enc* operators of the trace specifications) from the Java/C++ "
+           "format documentation, not from the library's writer; serialize() output is compared byte for byte with the specification's encoding of the "
+           "state the specification itself computed for the recorded history",
+           "f64 fields (HLL hip/kxq, theta as 8 bytes, hashes) are passed through as bytes: the specification fixes their position, not their value",
+           "CPC's entropy-coded payload and t-digest images are not re-encoded by the specification (CPC: opaque; t-digest: decoded by the harness's "
+           "independent decoder whose output the structural checks of C10/C15 consume); agreement with Java/C++ rests on the transcription, reference images are absent"],
+          "byte-exact comparison at every checkpoint of the HLL (all modes/types, exceptions, out-of-order), theta compact (v3 and v4 incl. bit packing "
+          "on bit sequences for <= 300 entries, reference packer above), frequent items, Count-Min and Bloom traces")
+
+
+def td_spec_digests(vhbin, pid, tier, seed):
+    """t-digest: the digests enumerated by TDigest.tla, loaded from images in every encoding."""
+    dig = work(pid, "digests.json")
+    g = tlc_gen("MC_TDigest", "MC_TDigest.cfg", dig, workers=8, timeout=3000)
+    rep = vh(vhbin, "td-replay", {"in": dig, "out": work(pid, "tdl"), "shards": 4})
+    return [("tdl", "Trace_TDigest", "CONSTANTS ", [work(pid, "tdl.%d.ndjson" % i) for i in range(4)], rep["runs"], g)]
+
+
+def C13(tier, seed):
+    multi("C13", tier, seed, ["hllv", "theta"], extra=td_spec_digests, mcs=
+          [("MC_Hll", "MC_Hll_A.cfg")], assumptions=
+          ["image variants are produced by the harness's own encoders (fam_hllfmt.rs, fam_theta.rs) AND re-encoded by the specification "
+           "(EncList/EncSet/EncArr, EncV1..EncV4): both must agree byte for byte before the library's decoding is judged",
+           "HLL: compact and updatable list/set/array images, Hll4 exceptions as compact list and as updatable exception table, out-of-order flag; "
+           "theta: serial versions 1-4 (empty, single, exact, estimating, ordered/unordered); t-digest: the digests enumerated by TDigest.tla as "
+           "double / float / buffered / reference big-endian double and float images (these encoders live in the harness only; every answer must be "
+           "bit-identical to the double image's, whose answers are checked against the specification's exact rationals)",
+           "Bloom dirty bit counts and frequent-items empty flags 4/5 are exercised by the C14 corpus only"], rule=
+          "every source state (list, set, array x Hll4/6/8, with exceptions, out of order; compact theta states from random and crafted sketches) "
+          "in every variant; after loading: full state comparison, further updates, union into an empty union, re-serialization")
